@@ -569,7 +569,7 @@ lemma succDiff_length (l : List α) : (succDiff l).length = l.length - 1 := by
 
 lemma pygapsDH_rows_length (c n : Nat) (vol thick kelvin : List α)
     (hv : vol.length = n) (ht : thick.length = n) (hk : kelvin.length = n) (s : α) :
-    (dhLoop c (zip5 (diffNeg vol.reverse) (avgPairs thick.reverse |> fun _ => diffNeg thick.reverse)
+    (dhLoop c (zip5 (diffNeg vol.reverse) (diffNeg thick.reverse)
       (avgPairs thick.reverse)
       (avgPairs (List.zipWith (fun t k => 2 * (t + k)) thick.reverse kelvin.reverse))
       (List.zipWith (fun aw at' => (aw / (aw - 2 * at')) ^ 2)
@@ -586,7 +586,6 @@ theorem lengths_pygapsDH (c n : Nat) (vol thick kelvin : List α)
     (pygapsDH c vol thick kelvin).volumes.length = n - 1 ∧
     (pygapsDH c vol thick kelvin).distribution.length = n - 1 := by
   have h := pygapsDH_rows_length c n vol thick kelvin hv ht hk 0
-  simp only [] at h
   unfold pygapsDH
   simp only [List.length_reverse, List.length_map, List.length_zipWith, List.length_drop, h, diffNeg_length,
     ht, hk, min_self]
@@ -633,6 +632,430 @@ theorem lengths_dollimoreHeal (n : Nat) (vol thick kelvin : List α)
     (dollimoreHeal vol thick kelvin).distribution.length = n - 1 :=
   lengths_radiusMethod _ (fun rows => dollimoreLoop_length rows 0 0) n vol thick kelvin hv ht hk
 
+/-! ### 10. distribution × width increment = pore volume -/
+
+lemma zipWith_cancel (f : α → α → α) (g : α → α) (V D : List α) (hl : V.length ≤ D.length)
+    (h : ∀ v, ∀ d ∈ D, f v d * g d = v) :
+    List.zipWith (· * ·) (List.zipWith f V D) (D.map g) = V := by
+  induction V generalizing D with
+  | nil => simp
+  | cons v V ih =>
+    cases D with
+    | nil => simp at hl
+    | cons d D =>
+      simp only [List.zipWith_cons_cons, List.map_cons]
+      rw [h v d (by simp), ih D (by simpa using hl) (fun v d hd => h v d (List.mem_cons_of_mem _ hd))]
+
+lemma zipWith_cancel_reverse (f : α → α → α) (g : α → α) (V D : List α) (hl : V.length = D.length)
+    (h : ∀ v, ∀ d ∈ D, f v d * g d = v) :
+    List.zipWith (· * ·) (List.zipWith f V D).reverse (D.map g).reverse = V.reverse := by
+  rw [← List.reverse_zipWith (by simp [hl]), zipWith_cancel f g V D hl.le h]
+
+lemma succDiff_map_mul (l : List α) (c : α) : succDiff (l.map (fun x => c * x)) = (succDiff l).map (fun x => c * x) := by
+  induction l with
+  | nil => rfl
+  | cons a l ih =>
+    cases l with
+    | nil => rfl
+    | cons b r =>
+      simp only [List.map_cons, succDiff] at ih ⊢
+      rw [ih]; congr 1; ring
+
+lemma dist_cancel_div (V D : List α) (hl : V.length = D.length) (hD : ∀ d ∈ D.reverse, d ≠ 0) :
+    List.zipWith (· * ·) (List.zipWith (· / ·) V D).reverse D.reverse = V.reverse := by
+  have := zipWith_cancel_reverse (· / ·) id V D hl
+    (fun v d hd => div_mul_cancel₀ v (hD d (by simpa using hd)))
+  simpa only [List.map_id] using this
+
+/-- 10 (pyGAPS-DH). the distribution times the width increments equals the pore volumes (increments non-zero) -/
+theorem distribution_times_increment_pygapsDH (c n : Nat) (vol thick kelvin : List α)
+    (hv : vol.length = n) (ht : thick.length = n) (hk : kelvin.length = n)
+    (hw : ∀ x ∈ succDiff (List.zipWith (fun t k => 2 * (t + k)) thick kelvin), x ≠ 0) :
+    List.zipWith (· * ·) (pygapsDH c vol thick kelvin).distribution
+      (succDiff (List.zipWith (fun t k => 2 * (t + k)) thick kelvin))
+      = (pygapsDH c vol thick kelvin).volumes := by
+  have htk : thick.length = kelvin.length := by omega
+  have hlen := pygapsDH_rows_length c n vol thick kelvin hv ht hk 0
+  rw [← diffNeg_reverse, List.reverse_zipWith htk] at hw ⊢
+  unfold pygapsDH
+  simp only []
+  have hD : (diffNeg (List.zipWith (fun t k => 2 * (t + k)) thick.reverse kelvin.reverse)).length = n - 1 := by
+    simp [diffNeg_length, ht, hk]
+  apply dist_cancel_div
+  · rw [List.length_map, hlen, hD]
+  · exact hw
+
+lemma dist_cancel_half (V D : List α) (hl : V.length = D.length)
+    (hD : ∀ d ∈ (D.map (fun x => 2 * x)).reverse, d ≠ 0) :
+    List.zipWith (· * ·) (List.zipWith (fun v d => v / d / 2) V D).reverse (D.map (fun x => 2 * x)).reverse
+      = V.reverse := by
+  refine zipWith_cancel_reverse (fun v d => v / d / 2) (fun x => 2 * x) V D hl (fun v d hd => ?_)
+  have h2d : 2 * d ≠ 0 := hD _ (by simp only [List.mem_reverse, List.mem_map]; exact ⟨d, hd, rfl⟩)
+  have h2 : (2 : α) ≠ 0 := left_ne_zero_of_mul h2d
+  have hd0 : d ≠ 0 := right_ne_zero_of_mul h2d
+  field_simp
+
+lemma distribution_times_increment_radiusMethod (loop : List (RRow α) → List (α × α))
+    (hloop : ∀ rows, (loop rows).length = rows.length) (n : Nat) (vol thick kelvin : List α)
+    (hv : vol.length = n) (ht : thick.length = n) (hk : kelvin.length = n)
+    (hw : ∀ x ∈ succDiff (List.zipWith (fun t k => 2 * (t + k)) thick kelvin), x ≠ 0) :
+    List.zipWith (· * ·) (radiusMethod loop vol thick kelvin).distribution
+      (succDiff (List.zipWith (fun t k => 2 * (t + k)) thick kelvin))
+      = (radiusMethod loop vol thick kelvin).volumes := by
+  have htk : thick.length = kelvin.length := by omega
+  have hlen := radiusMethod_rows_length n vol thick kelvin hv ht hk
+  have e : List.zipWith (fun t k => 2 * (t + k)) thick kelvin
+      = (List.zipWith (· + ·) thick kelvin).map (fun x => 2 * x) := by
+    rw [List.map_zipWith]
+  rw [e, succDiff_map_mul, ← diffNeg_reverse, List.reverse_zipWith htk, List.map_reverse] at hw ⊢
+  unfold radiusMethod
+  simp only []
+  have hD : (diffNeg (List.zipWith (· + ·) thick.reverse kelvin.reverse)).length = n - 1 := by
+    simp [diffNeg_length, ht, hk]
+  apply dist_cancel_half
+  · rw [List.length_map, hloop, hlen, hD]
+  · exact hw
+
+/-- 10 (BJH). -/
+theorem distribution_times_increment_bjh (n : Nat) (vol thick kelvin : List α)
+    (hv : vol.length = n) (ht : thick.length = n) (hk : kelvin.length = n)
+    (hw : ∀ x ∈ succDiff (List.zipWith (fun t k => 2 * (t + k)) thick kelvin), x ≠ 0) :
+    List.zipWith (· * ·) (bjh vol thick kelvin).distribution
+      (succDiff (List.zipWith (fun t k => 2 * (t + k)) thick kelvin))
+      = (bjh vol thick kelvin).volumes :=
+  distribution_times_increment_radiusMethod _ (fun rows => bjhLoop_length rows []) n vol thick kelvin hv ht hk hw
+
+/-- 10 (Dollimore-Heal). -/
+theorem distribution_times_increment_dollimoreHeal (n : Nat) (vol thick kelvin : List α)
+    (hv : vol.length = n) (ht : thick.length = n) (hk : kelvin.length = n)
+    (hw : ∀ x ∈ succDiff (List.zipWith (fun t k => 2 * (t + k)) thick kelvin), x ≠ 0) :
+    List.zipWith (· * ·) (dollimoreHeal vol thick kelvin).distribution
+      (succDiff (List.zipWith (fun t k => 2 * (t + k)) thick kelvin))
+      = (dollimoreHeal vol thick kelvin).volumes :=
+  distribution_times_increment_radiusMethod _ (fun rows => dollimoreLoop_length rows 0 0) n vol thick kelvin hv ht hk hw
+
+/-! ### 12. a single condensation step gives a single peak -/
+
+lemma succDiff_replicate (k : Nat) (x : α) : succDiff (List.replicate k x) = List.replicate (k - 1) 0 := by
+  induction k with
+  | zero => rfl
+  | succ k ih =>
+    cases k with
+    | zero => rfl
+    | succ k =>
+      simp only [List.replicate_succ, succDiff, sub_self] at ih ⊢
+      rw [ih]; simp [List.replicate_succ]
+
+/-- 12. successive changes of a single step of height `d` after `j + 1` points: one entry `d` at interval `j` -/
+theorem succDiff_single_step (j m : Nat) (hm : 1 ≤ m) (a d : α) :
+    succDiff (List.replicate (j + 1) a ++ List.replicate m (a + d))
+      = List.replicate j 0 ++ [d] ++ List.replicate (m - 1) 0 := by
+  induction j with
+  | zero =>
+    obtain ⟨m, rfl⟩ : ∃ m', m = m' + 1 := ⟨m - 1, by omega⟩
+    have := succDiff_replicate (m + 1) (a + d)
+    simp only [List.replicate_succ, List.replicate_zero, List.cons_append, List.nil_append, succDiff,
+      Nat.add_sub_cancel, add_sub_cancel_left] at this ⊢
+    rw [this]
+  | succ j ih =>
+    simp only [List.replicate_succ, List.cons_append, succDiff, sub_self] at ih ⊢
+    rw [ih]
+
+lemma widths_at (f : α → α → α) (n j : Nat) (kelvin : List α) (hk : kelvin.length = n) (hj : j + 1 < n) :
+    ((List.zipWith f (List.replicate n 0) kelvin).dropLast)[j]? = some (f 0 (kelvin[j]'(by omega))) := by
+  rw [List.dropLast_eq_take, List.getElem?_take_of_lt (by simp [hk]; omega), List.getElem?_zipWith]
+  have h1 : (List.replicate n (0 : α))[j]? = some 0 := by
+    rw [List.getElem?_replicate]; simp; omega
+  have h2 : kelvin[j]? = some (kelvin[j]'(by omega)) := List.getElem?_eq_getElem (by omega)
+  rw [h1, h2]
+
+/-- 12 (pyGAPS-DH). zero thickness, a single step of height `d` between points `j` and `j+1`: the only non-zero pore
+volume is `d`, at interval `j`, and the width reported for that interval is `2 * kelvin[j]` -/
+theorem single_step_single_peak_pygapsDH [LinearOrder α] [IsStrictOrderedRing α]
+    (c n j m : Nat) (hm : 1 ≤ m) (a d : α) (vol thick kelvin : List α)
+    (hthick : thick = List.replicate n 0) (hk : kelvin.length = n)
+    (hvol : vol = List.replicate (j + 1) a ++ List.replicate m (a + d)) (hn : n = j + 1 + m)
+    (hpos : ∀ k ∈ kelvin, 0 < k) :
+    (pygapsDH c vol thick kelvin).volumes = List.replicate j 0 ++ [d] ++ List.replicate (m - 1) 0 ∧
+    (pygapsDH c vol thick kelvin).widths[j]? = some (2 * kelvin[j]'(by omega)) := by
+  have hv : vol.length = n := by rw [hvol, hn]; simp
+  refine ⟨?_, ?_⟩
+  · rw [zero_thickness_volumes_pygapsDH c n vol thick kelvin hthick hk hv hpos, hvol, succDiff_single_step j m hm]
+  · rw [widths_spec_pygapsDH c vol thick kelvin (by rw [hthick, hk]; simp), hthick,
+      widths_at _ n j kelvin hk (by omega), zero_add]
+
+lemma single_step_single_peak_radiusMethod [LinearOrder α] [IsStrictOrderedRing α]
+    (loop : List (RRow α) → List (α × α))
+    (hloop : ∀ rows, (∀ r ∈ rows, r.dT = 0 ∧ r.ratio = 1) → (loop rows).map (·.1) = rows.map (·.dV))
+    (n j m : Nat) (hm : 1 ≤ m) (a d : α) (vol thick kelvin : List α)
+    (hthick : thick = List.replicate n 0) (hk : kelvin.length = n)
+    (hvol : vol = List.replicate (j + 1) a ++ List.replicate m (a + d)) (hn : n = j + 1 + m)
+    (hpos : ∀ k ∈ kelvin, 0 < k) :
+    (radiusMethod loop vol thick kelvin).volumes = List.replicate j 0 ++ [d] ++ List.replicate (m - 1) 0 ∧
+    (radiusMethod loop vol thick kelvin).widths[j]? = some (2 * kelvin[j]'(by omega)) := by
+  have hv : vol.length = n := by rw [hvol, hn]; simp
+  refine ⟨?_, ?_⟩
+  · rw [radiusMethod_zero_thickness loop hloop n vol thick kelvin hthick hk hv hpos, hvol,
+      succDiff_single_step j m hm]
+  · rw [widths_spec_radiusMethod loop vol thick kelvin (by rw [hthick, hk]; simp), hthick,
+      widths_at _ n j kelvin hk (by omega), zero_add, mul_comm]
+
+/-- 12 (BJH). -/
+theorem single_step_single_peak_bjh [LinearOrder α] [IsStrictOrderedRing α]
+    (n j m : Nat) (hm : 1 ≤ m) (a d : α) (vol thick kelvin : List α)
+    (hthick : thick = List.replicate n 0) (hk : kelvin.length = n)
+    (hvol : vol = List.replicate (j + 1) a ++ List.replicate m (a + d)) (hn : n = j + 1 + m)
+    (hpos : ∀ k ∈ kelvin, 0 < k) :
+    (bjh vol thick kelvin).volumes = List.replicate j 0 ++ [d] ++ List.replicate (m - 1) 0 ∧
+    (bjh vol thick kelvin).widths[j]? = some (2 * kelvin[j]'(by omega)) :=
+  single_step_single_peak_radiusMethod _ (fun rows h => bjhLoop_volumes rows [] h) n j m hm a d vol thick kelvin
+    hthick hk hvol hn hpos
+
+/-- 12 (Dollimore-Heal). -/
+theorem single_step_single_peak_dollimoreHeal [LinearOrder α] [IsStrictOrderedRing α]
+    (n j m : Nat) (hm : 1 ≤ m) (a d : α) (vol thick kelvin : List α)
+    (hthick : thick = List.replicate n 0) (hk : kelvin.length = n)
+    (hvol : vol = List.replicate (j + 1) a ++ List.replicate m (a + d)) (hn : n = j + 1 + m)
+    (hpos : ∀ k ∈ kelvin, 0 < k) :
+    (dollimoreHeal vol thick kelvin).volumes = List.replicate j 0 ++ [d] ++ List.replicate (m - 1) 0 ∧
+    (dollimoreHeal vol thick kelvin).widths[j]? = some (2 * kelvin[j]'(by omega)) :=
+  single_step_single_peak_radiusMethod _ (fun rows h => dollimoreLoop_volumes rows 0 0 h) n j m hm a d vol thick
+    kelvin hthick hk hvol hn hpos
+
+/-! ### 14. method dispatch, 15. default limits -/
+
+/-- 14. BJH is refused exactly for non-cylindrical pores -/
+theorem method_dispatch_bjh (g : String) (vol thick kelvin : List α) :
+    method "BJH" g vol thick kelvin = none ↔ g ≠ "cylinder" := by
+  unfold method
+  rw [if_neg (by decide), if_pos rfl]
+  by_cases h : g = "cylinder" <;> simp [h]
+
+/-- 14. Dollimore-Heal is refused exactly for non-cylindrical pores -/
+theorem method_dispatch_dh (g : String) (vol thick kelvin : List α) :
+    method "DH" g vol thick kelvin = none ↔ g ≠ "cylinder" := by
+  unfold method
+  rw [if_neg (by decide), if_neg (by decide), if_pos rfl]
+  by_cases h : g = "cylinder" <;> simp [h]
+
+/-- 14. pyGAPS-DH accepts exactly slit, cylinder, sphere -/
+theorem method_dispatch_pygapsDH (g : String) (vol thick kelvin : List α) :
+    (method "pygaps-DH" g vol thick kelvin).isSome ↔ (g = "slit" ∨ g = "cylinder" ∨ g = "sphere") := by
+  unfold method cLength
+  rw [if_pos rfl]
+  by_cases h1 : g = "slit"
+  · simp [h1]
+  by_cases h2 : g = "cylinder"
+  · simp [h2]
+  by_cases h3 : g = "sphere"
+  · simp [h3]
+  simp [h1, h2, h3]
+
+/-- 14. and then it is the pyGAPS-DH result with `c_length` 1, 2, 3 -/
+theorem method_dispatch_pygapsDH_value (vol thick kelvin : List α) :
+    method "pygaps-DH" "slit" vol thick kelvin = some (pygapsDH 1 vol thick kelvin) ∧
+    method "pygaps-DH" "cylinder" vol thick kelvin = some (pygapsDH 2 vol thick kelvin) ∧
+    method "pygaps-DH" "sphere" vol thick kelvin = some (pygapsDH 3 vol thick kelvin) ∧
+    method "BJH" "cylinder" vol thick kelvin = some (bjh vol thick kelvin) ∧
+    method "DH" "cylinder" vol thick kelvin = some (dollimoreHeal vol thick kelvin) := by
+  refine ⟨?_, ?_, ?_, ?_, ?_⟩ <;> simp [method, cLength]
+
+/-- 14. unknown method names are refused -/
+theorem method_dispatch_unknown (name g : String) (vol thick kelvin : List α)
+    (h1 : name ≠ "pygaps-DH") (h2 : name ≠ "BJH") (h3 : name ≠ "DH") :
+    method name g vol thick kelvin = none := by
+  unfold method
+  rw [if_neg h1, if_neg h2, if_neg h3]
+
+/-- 15. `p_limits = None` means `(0.1, 0.99)`; otherwise the given pair is used -/
+theorem mesoWindow_default [LinearOrder α] (ps : List α) (c10 c99 : α) (lo hi : Option α) :
+    mesoWindow ps c10 c99 none = decide3 (limitWindow ps (some c10) (some c99)) ∧
+    mesoWindow ps c10 c99 (some (lo, hi)) = decide3 (limitWindow ps lo hi) :=
+  ⟨rfl, rfl⟩
+
 end Recurrences
+
+/-! ## A. Kelvin and thickness formulas (generated from the source) -/
+
+section Formulas
+
+open PgVerif.Gen.CharR
+
+/-- the gas constant as it appears in the generated text -/
+noncomputable def Rgas : ℝ := 207861565453831 / 25000000000000
+
+lemma Rgas_pos : 0 < Rgas := by unfold Rgas; norm_num
+
+/-- the Kelvin radius as a positive constant over `-log p` -/
+lemma kelvin_radius_eq (p T γ Vm f : ℝ) (hT : 0 < T) (hf : 0 < f) (hp : 0 < p) (hp1 : p < 1) :
+    kelvin_radius p T γ Vm f = (2 * γ * Vm / (f * Rgas * T)) / (-Real.log p) := by
+  have hlog : Real.log p < 0 := Real.log_neg hp hp1
+  have hR := Rgas_pos
+  unfold kelvin_radius
+  change _ / (f * Rgas * T * Real.log p) = _
+  field_simp
+
+/-- 1. the Kelvin equation: on `0 < p < 1` (where `log p ≠ 0`; `p = 1` and `p ≤ 0` are excluded because Lean totalises
+`x / 0` and `log`) the radius is positive and satisfies `ln p = -2 γ Vm / (f R T r)` -/
+theorem kelvin_equation (p T γ Vm f : ℝ) (hp : 0 < p) (hp1 : p < 1) (hT : 0 < T) (hγ : 0 < γ) (hVm : 0 < Vm)
+    (hf : 0 < f) :
+    0 < kelvin_radius p T γ Vm f ∧
+    Real.log p = -(2 * γ * Vm) / (f * Rgas * T * kelvin_radius p T γ Vm f) := by
+  have hlog : Real.log p < 0 := Real.log_neg hp hp1
+  have hR := Rgas_pos
+  rw [kelvin_radius_eq p T γ Vm f hT hf hp hp1]
+  have hnl : 0 < -Real.log p := by linarith
+  refine ⟨by positivity, ?_⟩
+  field_simp
+
+/-- 2. geometry factors of the three meniscus shapes (numerator, denominator): 2, 1, 1/2 -/
+theorem geometry_factor_table :
+    geometryFactor.lookup "cylindrical" = some (2, 1) ∧
+    geometryFactor.lookup "hemispherical" = some (1, 1) ∧
+    geometryFactor.lookup "hemicylindrical" = some (1, 2) := by
+  refine ⟨?_, ?_, ?_⟩ <;> decide
+
+/-- 2. the published branch × pore-geometry → meniscus table -/
+theorem meniscus_table :
+    meniscusGeometry.lookup ("ads", "slit") = some "hemicylindrical" ∧
+    meniscusGeometry.lookup ("ads", "cylinder") = some "cylindrical" ∧
+    meniscusGeometry.lookup ("ads", "halfopen-cylinder") = some "hemispherical" ∧
+    meniscusGeometry.lookup ("ads", "sphere") = some "hemispherical" ∧
+    meniscusGeometry.lookup ("des", "slit") = some "hemicylindrical" ∧
+    meniscusGeometry.lookup ("des", "cylinder") = some "hemispherical" ∧
+    meniscusGeometry.lookup ("des", "halfopen-cylinder") = some "hemispherical" ∧
+    meniscusGeometry.lookup ("des", "sphere") = some "hemispherical" ∧
+    meniscusGeometry.length = 8 := by
+  refine ⟨?_, ?_, ?_, ?_, ?_, ?_, ?_, ?_, ?_⟩ <;> decide
+
+/-- `-1 / log p` is positive and strictly increasing on (0,1) -/
+lemma neg_log_anti {p q : ℝ} (hp : 0 < p) (hpq : p < q) (hq1 : q < 1) :
+    0 < -Real.log q ∧ -Real.log q < -Real.log p := by
+  have h1 : Real.log p < Real.log q := Real.log_lt_log hp hpq
+  have h2 : Real.log q < 0 := Real.log_neg (hp.trans hpq) hq1
+  constructor <;> linarith
+
+/-- 3. the Kelvin radius increases strictly with pressure on (0,1) -/
+theorem kelvin_strictMonoOn (T γ Vm f : ℝ) (hT : 0 < T) (hγ : 0 < γ) (hVm : 0 < Vm) (hf : 0 < f) :
+    StrictMonoOn (fun p => kelvin_radius p T γ Vm f) (Set.Ioo 0 1) := by
+  intro p hp q hq hpq
+  simp only [Set.mem_Ioo] at hp hq
+  obtain ⟨h1, h2⟩ := neg_log_anti hp.1 hpq hq.2
+  have hR := Rgas_pos
+  simp only [kelvin_radius_eq _ T γ Vm f hT hf hp.1 hp.2, kelvin_radius_eq _ T γ Vm f hT hf hq.1 hq.2]
+  exact div_lt_div_of_pos_left (by positivity) h1 h2
+
+/-- 4. the KJS correction adds 0.3 nm to the hemispherical (factor 1) Kelvin radius -/
+theorem kelvin_kjs_eq (p T γ Vm : ℝ) :
+    kelvin_radius_kjs p T γ Vm = kelvin_radius p T γ Vm 1 + 3 / 10 := by
+  unfold kelvin_radius_kjs kelvin_radius
+  rw [one_mul]
+
+lemma halsey_eq (p : ℝ) : thickness_halsey p = 177 / 500 * (5 / (-Real.log p)) ^ ((333 : ℝ) / 1000) := by
+  unfold thickness_halsey
+  simp only [Real.rpow_eq_pow]
+  rw [neg_div, ← div_neg]
+
+/-- 5. the Halsey thickness is positive on (0,1) -/
+theorem halsey_pos (p : ℝ) (hp : 0 < p) (hp1 : p < 1) : 0 < thickness_halsey p := by
+  have hlog : Real.log p < 0 := Real.log_neg hp hp1
+  have hnl : 0 < -Real.log p := by linarith
+  rw [halsey_eq]
+  have : 0 < (5 / (-Real.log p)) ^ ((333 : ℝ) / 1000) := Real.rpow_pos_of_pos (by positivity) _
+  positivity
+
+/-- 5. the Halsey thickness increases strictly with pressure on (0,1) -/
+theorem halsey_strictMonoOn : StrictMonoOn thickness_halsey (Set.Ioo 0 1) := by
+  intro p hp q hq hpq
+  simp only [Set.mem_Ioo] at hp hq
+  obtain ⟨h1, h2⟩ := neg_log_anti hp.1 hpq hq.2
+  rw [halsey_eq, halsey_eq]
+  have hlt : 5 / (-Real.log p) < 5 / (-Real.log q) := div_lt_div_of_pos_left (by norm_num) h1 h2
+  have hnn : 0 ≤ 5 / (-Real.log p) := by have := h1.trans h2; positivity
+  have := Real.rpow_lt_rpow hnn hlt (by norm_num : (0 : ℝ) < 333 / 1000)
+  linarith
+
+lemma harkins_jura_eq (p : ℝ) :
+    thickness_harkins_jura p = (1399 / 10000 / (17 / 500 + (-Real.log p) / Real.log 10)) ^ ((1 : ℝ) / 2) := by
+  unfold thickness_harkins_jura
+  simp only [Real.rpow_eq_pow]
+  rw [neg_div, sub_eq_add_neg]
+
+lemma log_ten_pos : 0 < Real.log 10 := Real.log_pos (by norm_num)
+
+/-- 5. the Harkins-Jura thickness is positive on (0,1) -/
+theorem harkins_jura_pos (p : ℝ) (hp : 0 < p) (hp1 : p < 1) : 0 < thickness_harkins_jura p := by
+  have hlog : Real.log p < 0 := Real.log_neg hp hp1
+  have hnl : 0 < -Real.log p := by linarith
+  have h10 := log_ten_pos
+  rw [harkins_jura_eq]
+  exact Real.rpow_pos_of_pos (by positivity) _
+
+/-- 5. the Harkins-Jura thickness increases strictly with pressure on (0,1) -/
+theorem harkins_jura_strictMonoOn : StrictMonoOn thickness_harkins_jura (Set.Ioo 0 1) := by
+  intro p hp q hq hpq
+  simp only [Set.mem_Ioo] at hp hq
+  obtain ⟨h1, h2⟩ := neg_log_anti hp.1 hpq hq.2
+  have h10 := log_ten_pos
+  rw [harkins_jura_eq, harkins_jura_eq]
+  have hdq : 0 < 17 / 500 + (-Real.log q) / Real.log 10 := by positivity
+  have hd : 17 / 500 + (-Real.log q) / Real.log 10 < 17 / 500 + (-Real.log p) / Real.log 10 := by
+    have := div_lt_div_of_pos_right h2 h10
+    linarith
+  have hlt : 1399 / 10000 / (17 / 500 + (-Real.log p) / Real.log 10)
+      < 1399 / 10000 / (17 / 500 + (-Real.log q) / Real.log 10) :=
+    div_lt_div_of_pos_left (by norm_num) hdq hd
+  have hnn : 0 ≤ 1399 / 10000 / (17 / 500 + (-Real.log p) / Real.log 10) := by
+    have := hdq.trans hd; positivity
+  exact Real.rpow_lt_rpow hnn hlt (by norm_num)
+
+/-- any non-decreasing thickness gives strictly increasing widths -/
+lemma width_strictMono_of_monotoneOn (th : ℝ → ℝ) (hth : MonotoneOn th (Set.Ioo 0 1))
+    (T γ Vm f : ℝ) (hT : 0 < T) (hγ : 0 < γ) (hVm : 0 < Vm) (hf : 0 < f) :
+    StrictMonoOn (fun p => 2 * (th p + kelvin_radius p T γ Vm f)) (Set.Ioo 0 1) := by
+  intro p hp q hq hpq
+  have h1 := hth hp hq hpq.le
+  have h2 := kelvin_strictMonoOn T γ Vm f hT hγ hVm hf hp hq hpq
+  simp only at h2 ⊢
+  linarith
+
+/-- 6. reported pore widths `2 (t + r_K)` increase strictly with pressure on (0,1), for the Halsey, Harkins-Jura and
+zero thickness models -/
+theorem width_strictMono (T γ Vm f : ℝ) (hT : 0 < T) (hγ : 0 < γ) (hVm : 0 < Vm) (hf : 0 < f) :
+    StrictMonoOn (fun p => 2 * (thickness_halsey p + kelvin_radius p T γ Vm f)) (Set.Ioo 0 1) ∧
+    StrictMonoOn (fun p => 2 * (thickness_harkins_jura p + kelvin_radius p T γ Vm f)) (Set.Ioo 0 1) ∧
+    StrictMonoOn (fun p => 2 * ((0 : ℝ) + kelvin_radius p T γ Vm f)) (Set.Ioo 0 1) :=
+  ⟨width_strictMono_of_monotoneOn _ halsey_strictMonoOn.monotoneOn T γ Vm f hT hγ hVm hf,
+   width_strictMono_of_monotoneOn _ harkins_jura_strictMonoOn.monotoneOn T γ Vm f hT hγ hVm hf,
+   width_strictMono_of_monotoneOn (fun _ => 0) (fun _ _ _ _ _ => le_rfl) T γ Vm f hT hγ hVm hf⟩
+
+end Formulas
+
+/-! ## C. non-vacuity -/
+
+section Examples
+
+/-- the hypotheses of 8 are satisfiable and give the stated result -/
+example : (pygapsDH 2 [1, 2, 4, 5] [0, 0, 0, 0] [1, 2, 3, 4] : Result ℚ).volumes = [1, 2, 1] := by decide +kernel
+example : (bjh [1, 2, 4, 5] [0, 0, 0, 0] [1, 2, 3, 4] : Result ℚ).volumes = [1, 2, 1] := by decide +kernel
+example : (dollimoreHeal [1, 2, 4, 5] [0, 0, 0, 0] [1, 2, 3, 4] : Result ℚ).volumes = [1, 2, 1] := by decide +kernel
+example : succDiff ([1, 2, 4, 5] : List ℚ) = [1, 2, 1] := by decide +kernel
+example : ([0, 0, 0, 0] : List ℚ) = List.replicate 4 0 ∧ ([1, 2, 3, 4] : List ℚ).length = 4 ∧
+    ∀ k ∈ ([1, 2, 3, 4] : List ℚ), 0 < k := by decide +kernel
+example : (pygapsDH 2 [1, 2, 4, 5] [0, 0, 0, 0] [1, 2, 3, 4] : Result ℚ).widths = [2, 4, 6] := by decide +kernel
+example : (pygapsDH 2 [1, 2, 4, 5] [0, 0, 0, 0] [1, 2, 3, 4] : Result ℚ).distribution = [1 / 2, 1, 1 / 2] := by
+  decide +kernel
+/-- with a non-zero thickness the volumes are *not* the raw changes (the statement of 8 is not trivial) -/
+example : (pygapsDH 2 [1, 2, 4, 5] [1, 2, 3, 4] [1, 2, 3, 4] : Result ℚ).volumes ≠ [1, 2, 1] := by decide +kernel
+example : (bjh [1, 2, 4, 5] [1, 2, 3, 4] [1, 2, 3, 4] : Result ℚ).volumes ≠ [1, 2, 1] := by decide +kernel
+/-- a single step: one peak -/
+example : (pygapsDH 2 [1, 1, 3, 3] [0, 0, 0, 0] [1, 2, 3, 4] : Result ℚ).volumes = [0, 2, 0] := by decide +kernel
+example : (dollimoreHeal [1, 1, 3, 3] [0, 0, 0, 0] [1, 2, 3, 4] : Result ℚ).widths = [2, 4, 6] := by decide +kernel
+/-- the cumulative curve ends at the last adsorbed volume -/
+example : cumulative ([1, 2, 1] : List ℚ) [1, 2, 4, 5] = [2, 4, 5] := by decide +kernel
+example : (method "BJH" "slit" [1, 2] [0, 0] [1, 2] : Option (Result ℚ)).isNone = true := by decide +kernel
+example : (method "pygaps-DH" "slit" [1, 2] [0, 0] [1, 2] : Option (Result ℚ)).isSome = true := by decide +kernel
+
+end Examples
 
 end PgVerif.Props.C16
